@@ -642,6 +642,9 @@ def is_artifact_path(rel):
 
 # ------------------------------------------------------------------ executing a script
 
+# absolute time after which forked workers stop starting new commands (inherited through fork)
+_DEADLINE = [None]
+
 def argv_of(op):
     if op[0] == "scan":
         return ["-l", "scan"]
@@ -926,9 +929,12 @@ class Exec:
 
     # ---- driver
     def run(self, check=True, fresh=True, upto=None):
+        import time
         for idx, op in enumerate(self.script["ops"]):
             if upto is not None and idx > upto:
                 break
+            if _DEADLINE[0] is not None and time.time() > _DEADLINE[0]:
+                break       # out of time: what was executed so far stays valid, every command is checked on its own
             k = op[0]
             if k == "add" or k == "replace":
                 if k == "replace":
@@ -1054,9 +1060,12 @@ def query_worker(item):
     subseed, n = item
     from bob.cmds.archive import query
     from bob.errors import BobError
+    import time
     r = random.Random(subseed)
     out = []
     for _ in range(n):
+        if _DEADLINE[0] is not None and time.time() > _DEADLINE[0]:
+            break
         odd = r.random() < 0.25
         rows = []
         for _ in range(r.choice([0, 1, 2, 3, 4, 5, 6, 8, 10, 14])):
@@ -1288,18 +1297,25 @@ T_HIST, T_MALFORMED, T_QUERY = 0.47, 0.37, 0.17
 _STATE = {"traces": [], "queries": [], "shrunk": set()}
 
 
-def run_sliced(ctx, fn, items, reserve, label, handle):
+def run_sliced(ctx, fn, items, reserve, label, handle, always_first=False):
     """map fn over items in forked workers, in slices sized to take a few seconds each (whatever the machine load is),
-    until fewer than `reserve` seconds of the budget are left"""
+    until less than the share `reserve` of the budget is left.  With `always_first` the first slice runs in any case
+    (on an overloaded machine the build and the audit may have used up the budget already; the fixed scripts still run)."""
     import time
     pos, size = 0, 8
-    while pos < len(items) and ctx.time_left() > reserve * ctx.budget:
-        t = time.time()
-        for res in ctx.parallel(fn, items[pos:pos + size]):
-            handle(res)
-        pos += size
-        per = max(1e-3, (time.time() - t) / size)
-        size = max(8, min(96, int(6.0 / per)))
+    _DEADLINE[0] = ctx.t0 + ctx.budget * (1.0 - reserve) + 0.04 * ctx.budget
+    if always_first:
+        _DEADLINE[0] = max(_DEADLINE[0], time.time() + 0.25 * ctx.budget)
+    try:
+        while pos < len(items) and (ctx.time_left() > reserve * ctx.budget or (always_first and pos == 0)):
+            t = time.time()
+            for res in ctx.parallel(fn, items[pos:pos + size]):
+                handle(res)
+            pos += size
+            per = max(1e-3, (time.time() - t) / size)
+            size = max(8, min(96, int(6.0 / per)))
+    finally:
+        _DEADLINE[0] = None
     if pos < len(items):
         ctx.skip("%s: %d of %d not run (time budget)" % (label, len(items) - pos, len(items)))
 
@@ -1361,7 +1377,7 @@ def oracle(ctx):
             tr.pop("pre_all", None)
             tr.pop("post_all", None)
         _STATE["traces"].append((res["kind"], res["subseed"], res["script"], res["traces"]))
-    run_sliced(ctx, history_worker, items, T_HIST, "oracle: histories", handle_history)
+    run_sliced(ctx, history_worker, items, T_HIST, "oracle: histories", handle_history, always_first=True)
     # malformed artifacts
     mitems = [(ctx.subrng("malformed", k).getrandbits(64), os.path.join(ctx.tmp, "m%d" % k)) for k in range(ctx.scale(48, 800))]
 
